@@ -78,7 +78,16 @@ class Tr:
         if isinstance(e, ast.Constant):
             return "ENil"
         if isinstance(e, ast.Attribute):
-            return self.expr(e.value)
+            attrs = []
+            cur = e
+            while isinstance(cur, ast.Attribute):
+                attrs.append(cur.attr)
+                cur = cur.value
+            if isinstance(cur, ast.Name):
+                if not isinstance(cur.ctx, ast.Load):
+                    raise Unsupported("attribute chain rooted at a non-load name")
+                return f"(EAttr {self.n(cur.id)} {self.n.lst(attrs[::-1])})"
+            return self.expr(cur)
         if isinstance(e, ast.Subscript):
             return econs([self.expr(e.value), self.expr(e.slice)])
         if isinstance(e, ast.Slice):
@@ -217,18 +226,29 @@ class Tr:
 
 
 HEADER = """From Coq Require Import List NArith Bool.
-From Verif Require Import Wire Closed ClosedProofs.
+From Verif Require Import Wire Closed ClosedProofs Binding.
 Import ListNotations.
 Open Scope N_scope.
 """
 
 
-def shard_file(progs: list[dict], attr_cases: list[tuple[list, list]], builtin_names: list[str]) -> tuple[str, list[int], dict]:
-    """progs: [{"code", "lnames", "gnames"}] -> (text of the .v file, indices that failed translation, info)"""
+def shard_file(progs: list[dict], attr_cases: list[tuple[list, list]], builtin_names: list[str], heaps: dict) -> tuple[str, list[int], dict]:
+    """progs: [{"code", "gnames", "gnames_pre", "lnames_pre", "schema", "glob_f", "glob_m", "expect", "assembly"}];
+    heaps: schema key -> [[oid, kind, [[attr, oid], ...]], ...]
+    -> (text of the .v file, indices translated, info)"""
     it = Interner()
     tr = Tr(it)
     ns_defs: dict[tuple, str] = {}
     ns_lines = []
+    oids: dict[tuple, int] = {}
+
+    def O(schema, local) -> int:
+        k = (schema, local)
+        i = oids.get(k)
+        if i is None:
+            i = len(oids) + 1
+            oids[k] = i
+        return i
 
     def ns_ref(names) -> str:
         key = tuple(sorted(set(names)))
@@ -239,9 +259,31 @@ def shard_file(progs: list[dict], attr_cases: list[tuple[list, list]], builtin_n
             ns_lines.append(f"Definition {r} : list N := {it.lst(key)}.")
         return r
 
+    heap_names: dict = {}
+    heap_lines = []
+
+    def heap_ref(schema) -> str:
+        r = heap_names.get(schema)
+        if r is None:
+            r = f"heap{len(heap_names)}"
+            heap_names[schema] = r
+            ents = []
+            for o, kind, attrs in heaps.get(schema, []):
+                al = "; ".join(f"({it(a)}, {O(schema, t)})" for a, t in attrs)
+                ents.append(f"({O(schema, o)}, mkObj {kind} [{al}])")
+            heap_lines.append(f"Definition {r} : list (N * obj) := [" + ";\n  ".join(ents) + "].")
+        return r
+
+    def gmap(schema, d) -> str:
+        return "[" + "; ".join(f"({it(n)}, {O(schema, o)})" for n, o in (d.items() if isinstance(d, dict) else d)) + "]"
+
     untranslated = {}
     lines = []
     ok_idx = []
+    bcases = []
+    bkeys = []
+    ascases: dict[str, int] = {}
+    askeys = []
     for i, p in enumerate(progs):
         try:
             term = tr.program(p["code"])
@@ -251,13 +293,27 @@ def shard_file(progs: list[dict], attr_cases: list[tuple[list, list]], builtin_n
         except SyntaxError as e:
             untranslated[i] = "SyntaxError: " + str(e)
             continue
+        sk = p["schema"]
         nf = ns_ref(list(p["gnames"]) + builtin_names)
         nm = ns_ref(list(p["gnames_pre"]) + list(p["lnames_pre"]) + builtin_names)
+        h = heap_ref(sk)
+        wf = f"(mkW {gmap(sk, p.get('glob_f', {}))} {h})"
+        wm = f"(mkW {gmap(sk, p.get('glob_m', {}))} {h})"
         lines.append(f"Definition p{i} : program :=\n   {term}.")
-        ok_idx.append((i, nm, nf))
-    txt = HEADER + "\n".join(ns_lines) + "\n" + "\n".join(lines) + "\n"
-    txt += "Definition cases : list (list N * list N * program) :=\n  [" + ";\n   ".join(f"({nm}, {nf}, p{i})" for i, nm, nf in ok_idx) + "].\n"
-    txt += "Eval vm_compute in (bad_idx case_ok cases).\n"
+        ok_idx.append((i, nm, nf, wm, wf))
+        if p.get("expect"):
+            ex = "[" + "; ".join(f"({it(r)}, {it.lst(path)}, {O(sk, c)})" for r, path, c in p["expect"]) + "]"
+            g0 = gmap(sk, (p.get("assembly") or {}).get("g0", []))
+            bcases.append(f"({wf}, {g0}, {ex})")
+            bkeys.append(i)
+        a = p.get("assembly")
+        if a:
+            txt = f"({gmap(sk, a['g0'])}, {gmap(sk, a['imps'])}, {gmap(sk, a['real'])})"
+            if txt not in ascases:
+                ascases[txt] = i
+                askeys.append(i)
+    txt = HEADER + "\n".join(ns_lines) + "\n" + "\n".join(heap_lines) + "\n" + "\n".join(lines) + "\n"
+    txt += "Definition cases : list pcase :=\n  [" + ";\n   ".join(f"mkCase {nm} {nf} {wm} {wf} p{i}" for i, nm, nf, wm, wf in ok_idx) + "].\n"
     # holder attributes: reads vs sets, per schema
     acs = []
     for reads, sets in attr_cases:
@@ -266,9 +322,24 @@ def shard_file(progs: list[dict], attr_cases: list[tuple[list, list]], builtin_n
         acs.append(f"({rl}, {sl})")
     txt += "Definition acases : list (list (N * N) * list (N * N)) :=\n  [" + ";\n   ".join(acs) + "].\n"
     txt += "Definition aok (c : list (N * N) * list (N * N)) : bool := attrs_closed (fst c) (snd c).\n"
-    txt += "Eval vm_compute in (bad_idx aok acases).\n"
-    # kernel-checked statements for this shard (fail if any program is rejected)
-    txt += ("Lemma shard_closed : bad_idx case_ok cases = [] /\\ bad_idx aok acases = [].\n"
-            "Proof. split; vm_compute; reflexivity. Qed.\n"
-            "Definition shard_programs_never_raise_NameError := shard_sound cases (proj1 shard_closed).\n")
-    return txt, [i for i, _, _ in ok_idx], {"untranslated": untranslated, "names": len(it.ids), "ns_defs": len(ns_defs)}
+    # identity binding: the rendered chain of every schema class a program mentions reaches that very class,
+    # whenever the renderings are injective (domain predicate evaluated here, in Coq)
+    txt += "Definition bcases : list (world * gmap * list expectation) :=\n  [" + ";\n   ".join(bcases) + "].\n"
+    txt += "Definition bdom (c : world * gmap * list expectation) : bool := inj_ok (snd c) && roots_fresh (snd (fst c)) (snd c).\nDefinition bok (c : world * gmap * list expectation) : bool := negb (bdom c) || binding_ok (fst (fst c)) (snd c).\n"
+    # namespace assembly: model (setdefault over the recorded imports) vs the function's real __globals__
+    txt += "Definition ascases : list (gmap * list (name * N) * gmap) :=\n  [" + ";\n   ".join(ascases.keys()) + "].\n"
+    txt += "Definition asok (c : gmap * list (name * N) * gmap) : bool := assembly_ok (fst (fst c)) (snd (fst c)) (snd c).\n"
+    # kernel-checked statements for this shard (coqc fails if any case is rejected); the number of programs outside the
+    # domain of the binding theorem is printed
+    lemma = ("Lemma shard_closed : bad_idx case_ok cases = [] /\\ bad_idx aok acases = [] /\\ bad_idx bok bcases = [] /\\ bad_idx asok ascases = [].\n"
+             "Proof. split; [| split; [| split]]; vm_compute; reflexivity. Qed.\n"
+             "Definition shard_programs_never_raise_NameError := shard_sound cases (proj1 shard_closed).\n"
+             "Eval vm_compute in (bad_idx bdom bcases).\n")
+    # diagnosis (compiled only when the lemma fails): which cases are rejected
+    diag = ("Eval vm_compute in (bad_idx case_ok cases).\nEval vm_compute in (bad_idx aok acases).\n"
+            "Eval vm_compute in (bad_idx bok bcases).\nEval vm_compute in (bad_idx bdom bcases).\n"
+            "Eval vm_compute in (bad_idx asok ascases).\n")
+    info_extra = {"diag": txt + diag}
+    txt = txt + lemma
+    return txt, [i for i, *_ in ok_idx], {"untranslated": untranslated, "names": len(it.ids), "ns_defs": len(ns_defs),
+                                          "bkeys": bkeys, "askeys": askeys, "objects": len(oids), **info_extra}
